@@ -63,11 +63,23 @@ def spmd(h, size, prog, *, fault=None, staple="chain", verify=True,
             raise RankRaised from e
         return sym, num, nxt
 
-    try:
-        _w, res = fakempi.run_spmd(size, program, call=call)
-    except RankRaised:
+    from pyvc.sym import EngineSignal as _ES
+    _w, outcomes = fakempi.run_spmd(size, program, call=call,
+                                    record_exceptions=True,
+                                    passthrough=(_ES, D.NotApplicable))
+    blocked = {}
+    for r, o in enumerate(outcomes):
+        if isinstance(o, fakempi.RankRaised):
+            e = o.exc
+            if isinstance(e, RankRaised) and r in raised:
+                continue
+            raised[r] = (stage.get(r, "?"), e.__cause__ or e)
+        elif isinstance(o, fakempi.RankBlocked):
+            blocked[r] = o.collective
+    spmd.last_blocked = blocked
+    if raised or blocked:
         return ctxs, None, raised
-    return ctxs, res, raised
+    return ctxs, list(outcomes), raised
 
 
 class RankRaised(Exception):
